@@ -478,8 +478,10 @@ def write_evidence(
         "wall_s": round(wall, 2),
         "violations": nviol,
     }
-    d = VERIF / "evidence"
-    d.mkdir(exist_ok=True)
+    # evidence/ describes /repo itself; a sensitivity run against a scratch tree (VERIF_REPO)
+    # leaves its record in the git-ignored work directory instead
+    d = VERIF / "evidence" if not os.environ.get("VERIF_REPO") else VERIF / ".work" / "evidence"
+    d.mkdir(parents=True, exist_ok=True)
     (d / f"{mod.PROPERTY}.json").write_text(json.dumps(ev, indent=1, default=repr))
 
 
